@@ -61,7 +61,7 @@ func runC15(c *fw.Ctx) {
 		}
 	}
 	// ---- (ii) interior inputs ----
-	for i := 0; i < c.Pick(6000, 150000); i++ {
+	for i := 0; i < c.Pick(6000, 400000); i++ {
 		c.Case(func(k *fw.K) { c15Upstream(k) })
 	}
 }
